@@ -557,3 +557,7 @@ def run(ctx):
     # a failed thread-name read costs the name, not the thread (same rule instance as C04/every-tid-listed)
     from rules import c04
     c04.rule_every_tid_listed(ctx, R="C11/name-failure-keeps-thread")
+    # the stream is attempted in every dump: its writer is on every success path of generate_dump (same rule instance as C01/every-stream-attempted)
+    from rules import c01 as _c01
+    _c01.rule_stream_attempted(ctx, R="C11/stream-attempted", only=("minidump_writer::write_soft_errors",))
+
